@@ -8,7 +8,7 @@ from ..result import finish
 
 ID = "C10"
 ENGINE = "fac"
-RUNS = {"quick": 4000, "thorough": 100000}
+RUNS = {"quick": 4000, "thorough": 120000}
 DOUBLE = {"quick": 32, "thorough": 400}
 FRESH = {"quick": 4, "thorough": 16}
 RULE_TEXT = ("one run = one seeded plan: a CA service (timer loop) and/or a VRU service on the virtual clock, fed by a simulated GNSS "
@@ -20,7 +20,12 @@ COMPONENTS = {"real": ["CooperativeAwarenessBasicService", "CAMTransmissionManag
                        "VAMTransmissionManagement", "VBSClusteringManager", "CAMCoder", "VAMCoder", "TimeService users"],
               "stub": ["BTP router (recording stub)", "GNSS (plan ops)", "virtual clock", "SimTimer", "PRNG (start delay)"]}
 ASSUMPTIONS = ["CAM/VAM instants are the virtual times at which the BTPDataRequest reaches the BTP router",
-               "comparisons within 1.5 ms of a time threshold / 1e-6 of a dynamics threshold / 1 % of 4 m give no verdict",
+               "no verdict within 1e-6 of a heading/speed threshold and within 1 % + 2 cm of 4 m; time thresholds: the service compares "
+               "floor(ms) clock readings, so 'at least T elapsed' is judged from T + 10 us (T + 1.5 ms when an instant lies exactly on a "
+               "millisecond boundary) and 'less than T' up to T - 1.5 ms",
+               "T_GenCam adaptation and N_GenCam are not modelled; only the bounds of the statement are",
+               "key of vam-gap-min = which dynamics differ between the two triggering reports (speed, heading, position, none) or "
+               "'unavailable-field' when the previous VAM carried an unavailable code",
                "CAM max gap is suspended while no position report arrived for more than two report periods and across injected send errors",
                "a report without lat/lon is not a position report: it creates no obligation to send",
                "VBS activation = creation of the VRU service and subscription to the location service (the service has no start/stop API)",
@@ -309,7 +314,7 @@ def _judge_vam(sim, h: History, nominal_us: int, trace) -> None:
     for st in fs.vam_stalls(h, nominal_us):
         exc = next((e for e in sim.log if e["k"] == "exc" and e["where"] == "vru.location" and st["t1"] <= e["t"] <= st["t2"]
                     and not isinstance(e["exc"], fs._Injected)), None)
-        sim.violate(ID, "vam-gap-max", ("raised:" + fs.exc_key(exc["exc"])) if exc else ("time" if st["after_vam"] else "no-vam"),
+        sim.violate(ID, "vam-gap-max", ("raised:" + fs.exc_label(sim, exc, "VAM")) if exc else ("time" if st["after_vam"] else "no-vam"),
                     f"{st['gap'] / 1000:.1f} ms of position reports at an active VBS without a VAM (T_GenVamMax 5000 ms + one report period)", st["t2"])
     for act in h.vru_acts:
         if len(act["reports"]) > 1:
@@ -325,7 +330,7 @@ def _judge_vam(sim, h: History, nominal_us: int, trace) -> None:
                 if fault:
                     sim.probe("vam-first-under-fault")
                 else:
-                    sim.violate(ID, "vam-first", "raised:" + fs.exc_key(exc["exc"]) if exc else "silent",
+                    sim.violate(ID, "vam-first", ("raised:" + fs.exc_label(sim, exc, "VAM")) if exc else "silent",
                                 f"no VAM at the first position report (#{first['i']}) after activation"
                                 + (f"; the location callback raised {exc['exc']!r}" if exc else ""), first["t"])
         # ---- consecutive VAMs
